@@ -34,6 +34,11 @@ class RecRes(Hooks):
         super().post_step(step, level_number)
         self._snap('post_step', step)
 
+    def post_sweep(self, step, level_number):
+        super().post_sweep(step, level_number)
+        if level_number == 0 and step.status.stage == 'IT_FINE':  # the fine sweeps of an iteration (several with nsweeps > 1)
+            self._snap('post_sweep', step)
+
 
 class MatTransfer:
     """space transfer given by exact matrices (built by the harness from the real interpolation helper)"""
@@ -116,7 +121,7 @@ def build(cfg, float_mode=False):
     elif kind == 'multi_implicit':
         pc = ss.FMulti if float_mode else sp.MultiProb
         pp = {'A1': 0.5 * A, 'A2': 0.5 * A}
-        key = {'Q1': cfg['qd'], 'Q2': cfg['qd']}
+        key = {'Q1': cfg['qd'], 'Q2': cfg.get('qd2', cfg['qd'])}
     sw = {'num_nodes': cfg['M'] if NL > 1 else cfg['M'][0], 'quad_type': cfg.get('quad_type', 'RADAU-RIGHT'), 'initial_guess': cfg.get('initial_guess', 'spread'), 'do_coll_update': cfg.get('cu', False), **key}
     d = dict(problem_class=pc, problem_params=pp, sweeper_class=c02.SWEEPERS[kind], sweeper_params=sw,
              level_params={'dt': cfg['dt'], 'restol': cfg['restol'], 'residual_type': cfg.get('residual_type', 'full_abs'),
@@ -190,11 +195,11 @@ def defect_norm(snap, Q, A, dt, rt):
 # ------------------------------------------------------------------------------------------------ C03 (b) freshness
 
 
-def freshness_case(rep, NP, NL, maxiter, rt, jac=True, restol=1e-2, predict='auto'):
+def freshness_case(rep, NP, NL, maxiter, rt, jac=True, restol=1e-2, predict='auto', nsweeps=1):
     sp.install_shadows()
-    name = f'fresh/NP{NP}/NL{NL}/K{maxiter}/{rt}/jac{int(jac)}/tol{restol:g}/{predict}'
+    name = f'fresh/NP{NP}/NL{NL}/K{maxiter}/{rt}/jac{int(jac)}/tol{restol:g}/{predict}' + (f'/ns{nsweeps}' if nsweeps != 1 else '')
     cfg = dict(sweeper='generic_implicit', prob='dahlquist', n=1, M=[2, 1][:NL], NP=NP, qd='LU', restol=restol, maxiter=maxiter,
-               predict=(('pfasst_burnin' if NL > 1 and NP > 1 else None) if predict == 'auto' else predict), jac=jac, residual_type=rt, dt=0.25)
+               predict=(('pfasst_burnin' if NL > 1 and NP > 1 else None) if predict == 'auto' else predict), jac=jac, residual_type=rt, dt=0.25, nsweeps=nsweeps)
 
     def fn(c):
         ctl, A, uend, stats, xs = run_symbolic(c, cfg)
@@ -203,7 +208,11 @@ def freshness_case(rep, NP, NL, maxiter, rt, jac=True, restol=1e-2, predict='aut
         L = ctl.MS[0].levels[0]
         logged = {(round(float(k.time), 9), k.iter): v for k, v in stats.items() if k.type == 'residual_post_iteration'}
         logged_step = {round(float(k.time), 9): v for k, v in stats.items() if k.type == 'residual_post_step'}
-        return dict(log=list(LOG), Q=np.array(L.sweep.coll.Qmat), A=A, stats_it=logged, stats_step=logged_step)
+        logged_sweep = {}
+        for k, v in stats.items():
+            if k.type == 'residual_post_sweep' and k.level == 0:
+                logged_sweep.setdefault((round(float(k.time), 9), k.iter), []).append(v)
+        return dict(log=list(LOG), Q=np.array(L.sweep.coll.Qmat), A=A, stats_it=logged, stats_step=logged_step, stats_sweep=logged_sweep)
 
     paths = explore(fn, max_paths=5000)
     rep.paths += len(paths)
@@ -217,8 +226,11 @@ def freshness_case(rep, NP, NL, maxiter, rt, jac=True, restol=1e-2, predict='aut
             got = R(s['res'])
             # the hook's record and the stats entry must be this very value
             key = (round(float(s['time']), 9), s['iter'])
-            st = r['stats_it'].get(key) if s['ev'] == 'post_iteration' else r['stats_step'].get(key[0])
-            same_obj = st is not None and R(st).eq(got)
+            if s['ev'] == 'post_sweep':
+                same_obj = any(R(v).eq(got) for v in r['stats_sweep'].get(key, []))
+            else:
+                st = r['stats_it'].get(key) if s['ev'] == 'post_iteration' else r['stats_step'].get(key[0])
+                same_obj = st is not None and R(st).eq(got)
             res, m = prove(got == spec, A_, name=f'{name}/path{i}/{s["ev"]}/slot{s["slot"]}/it{s["iter"]}')
             nq += 1
             rep.ob(f'{name}/path{i}/{s["ev"]}/slot{s["slot"]}/it{s["iter"]}', res)
@@ -261,6 +273,11 @@ def freshness_triage(rep, cfg, x, snap, name):
         def post_step(self, step, level_number):
             super().post_step(step, level_number)
             self._chk('post_step', step)
+
+        def post_sweep(self, step, level_number):
+            super().post_sweep(step, level_number)
+            if level_number == 0 and step.status.stage == 'IT_FINE' and 'obs' not in got:
+                self._chk('post_sweep', step)
 
     cfg2 = dict(cfg)
     cfg2['hooks'] = [Probe]
